@@ -1,5 +1,5 @@
 import Verif.Lemmas.C10
-import Verif.Lemmas.C15
+import Verif.Lemmas.C15Generic
 import Verif.Props.C04
 /-! # C18 — Same query, same logs, same answer
 
